@@ -55,6 +55,21 @@ class C14Episode(Episode):
     def run_start(self, c):
         w = self.world
         name = self.cfg['watchers'][0]['name']
+        h = dict(c['hooks'])
+        if c.get('rehook'):
+            # hooks replaced at run time (set hooks.NAME = dotted.name[,flag])
+            for hook, (o, f) in sorted(c['rehook'].items()):
+                r = w.call('set', {'name': name, 'options': {
+                    'hooks.' + hook: 'circus_sim.hookmods.' + _INI_FN[o] +
+                    (',true' if f else '')}},
+                    waiting=True)
+                if not isinstance(r.reply, dict) or \
+                        r.reply.get('status') != 'ok':
+                    self.viol('set_hook_refused', 'set hooks.%s answered %r'
+                              % (hook, r.reply), once='rehook')
+                    return
+                h[hook] = (o, f)
+            self.probes['hooks_replaced_at_run_time'] += 1
         if c['trigger'] == 'start':
             w.call('start', {'name': name}, waiting=True)
         elif c['trigger'] == 'restart':
@@ -65,7 +80,6 @@ class C14Episode(Episode):
         if self.stopped() or not ok:
             return
         np_ = self.cfg['watchers'][0]['opts']['numprocesses']
-        h = c['hooks']
         # reference model ------------------------------------------------
         exp_calls = []
         aborted = False
@@ -261,7 +275,8 @@ class C14(Prop):
             'triggers start / restart / daemon start); all 36 '
             'before_stop/after_stop assignments under stop and restart; '
             'before_signal/after_signal under signal (several signals incl. '
-            'SIGKILL), kill and stop; judged against a reference model of '
+            'SIGKILL), kill and stop; every start hook replaced at run time by '
+            'a set request (6 old x 6 new outcome / flag pairs); judged against a reference model of '
             'the documented gating. random part: per-call varying hook '
             'scripts with worker deaths at kernel-call boundaries. a case is '
             'non-trivial when at least one hook fails or vetoes; distinct = '
@@ -302,6 +317,15 @@ class C14(Prop):
                         'hooks': {hook: (out, INI_FLAGS[flag])},
                         'ini_flags': {hook: flag}, 'beh': 'obedient',
                         'np': 2, 'trigger': 'start'}})
+        # a hook replaced at run time by a set request: outcome and flag of
+        # the new one count, whatever the old one's were
+        for hook in START_HOOKS:
+            for old in vals:
+                for new in vals:
+                    cases.append({'c14': {
+                        'kind': 'start', 'hooks': {hook: old},
+                        'rehook': {hook: new}, 'beh': 'obedient', 'np': 2,
+                        'trigger': 'start'}})
         for combo in itertools.product(vals, repeat=2):
             hooks = dict(zip(('before_stop', 'after_stop'), combo))
             for beh in ('obedient', 'stubborn'):
@@ -332,7 +356,9 @@ class C14(Prop):
         if tier == 'quick':
             rng = random.Random('c14/%s' % master)
             cases = [c for c in cases if rng.random() < 0.1 or
-                     c['c14'].get('np') == 0 or c['c14'].get('ini')]
+                     c['c14'].get('np') == 0 or c['c14'].get('ini') or
+                     (c['c14'].get('rehook') and list(
+                         c['c14']['rehook'].values())[0][0] == 'raise')]
         return cases
 
     def materialize(self, case):
@@ -358,6 +384,8 @@ class C14(Prop):
             hooks = dict((k, tuple(v)) for k, v in c['hooks'].items())
             cfg = _cfg(seed, c['np'], c['beh'], hooks, True)
         c['hooks'] = hooks
+        if c.get('rehook'):
+            c['rehook'] = dict((k, tuple(v)) for k, v in c['rehook'].items())
         return {'cfg': cfg, 'ops': case.get('ops', []), 'c14': c}
 
     def gen(self, rng, tier, seed):
